@@ -218,8 +218,12 @@ impl SplitterSet {
         }
     }
 
+    // a block that no state maps to never got a list: its list is empty
     fn take_list(&mut self, b: u32) -> SplitterList {
-        std::mem::take(&mut self.list[b as usize])
+        match self.list.get_mut(b as usize) {
+            Some(l) => std::mem::take(l),
+            None => SplitterList::default(),
+        }
     }
 
     fn add_splitter(&mut self, s: &Splitter) {
